@@ -122,6 +122,12 @@ def main():
 				if v['tail']:
 					print('      tail:', v['tail'][-300:])
 	if a.json:
+		if a.mode != 'all' or a.props:
+			# a subset was run: merge into the existing table (entries of mutants that no longer exist are dropped)
+			ids = [m['id'] for m in MUTATIONS]
+			prev = {r['id']: r for r in (json.loads(Path(a.json).read_text()) if Path(a.json).exists() else [])}
+			prev.update({r['id']: r for r in out})
+			out = [prev[i] for i in ids if i in prev]
 		Path(a.json).write_text(json.dumps(out, indent=1))
 	return 0 if all(r['ok'] for r in out) else 1
 
